@@ -320,6 +320,29 @@ Proof.
     eapply NFd_bind; [exact H|]. eapply NF_NFd, NF_ret.
 Qed.
 
+Lemma NFerr_bind {A B} (m : M A) (f : A -> M B) d d1 : NFerr m d d1 -> NFerr (bind m f) d d1.
+Proof. intros H c. destruct (H c) as [c1 E]. exists c1. unfold bind. rewrite E. reflexivity. Qed.
+
+(* the download directory without faults: <n>.full holds the inflated bytes, the disk is untouched *)
+Lemma NF_dstep d : NF dstep d tt d.
+Proof. unfold dstep. apply NF_mut. Qed.
+
+Lemma NF_download_some bdl out d : inflate zdec base bdl = Some out -> NF (downloadM zdec base bdl) d out d.
+Proof.
+  intros E. unfold downloadM. rewrite E.
+  eapply NF_bind; [apply NF_dstep|]. eapply NF_bind; [apply NF_dstep|].
+  eapply NF_bind; [apply NF_dstep|]. eapply NF_bind; [apply NF_dstep|].
+  eapply NF_bind. { instantiate (1 := d). instantiate (1 := tt). destruct (8192 <=? blen out); [apply NF_dstep|apply NF_ret]. }
+  eapply NF_bind; [apply NF_rd|]. cbn iota. apply NF_ret.
+Qed.
+
+Lemma NF_download_none bdl d : inflate zdec base bdl = None -> NFerr (downloadM zdec base bdl) d d.
+Proof.
+  intros E. unfold downloadM. rewrite E.
+  eapply NF_bind_err; [apply NF_dstep|]. eapply NF_bind_err; [apply NF_dstep|].
+  eapply NF_bind_err; [apply NF_dstep|]. eapply NF_bind_err; [apply NF_dstep|]. apply NFerr_fail.
+Qed.
+
 Lemma NF_do_update c ch r dl d :
   NFd (do_updateM sha sigok zdec base c r dl) d (fst (fst (do_update sha sigok zdec base c d ch r dl))).
 Proof.
@@ -338,10 +361,8 @@ Proof.
                   | ShAlready => ret UNoUpdate
                   | ShOk => match dl with
                             | None => fail
-                            | Some bdl => match inflate zdec base bdl with
-                                          | None => fail
-                                          | Some out => if hash_ok sha out (p_hash p) then cs_installM c p out else fail
-                                          end
+                            | Some bdl => fileb <- downloadM zdec base bdl ;;
+                                          if hash_ok sha fileb (p_hash p) then cs_installM c p fileb else fail
                             end
                   end
               end) d2
@@ -378,7 +399,9 @@ Proof.
     eapply NFd_bind; [exact H|].
     destruct sh; try (eapply NF_NFd, NF_ret).
     destruct dl as [bdl|]; [|apply NFerr_NFd, NFerr_fail].
-    destruct (inflate zdec base bdl) as [out|]; [|apply NFerr_NFd, NFerr_fail].
+    destruct (inflate zdec base bdl) as [out|] eqn:Einf.
+    2:{ apply NFerr_NFd, NFerr_bind, NF_download_none. exact Einf. }
+    eapply NFd_bind; [apply NF_download_some; exact Einf|].
     destruct (hash_ok sha out (p_hash p)); [|apply NFerr_NFd, NFerr_fail].
     pose proof (NF_cs_install c p out d3) as H4.
     destruct (cs_install c d3 p out) as [d4 st]. cbn [fst snd] in *. eapply NF_NFd. exact H4. }
